@@ -14,7 +14,7 @@ theorem finish_post (s : St) (h : afterLoad s = true) :
     (match finish s with
      | (s', none) => finishedOk s s'
      | (_, some _) => false) = true := by
-  obtain ⟨hasCache, state, locked, tracker, calling, status, tRef, pRef, specT, userT, specP, userP, lT, lP, hsS, hsE, hT, hP, raw, ts, shares, filled, held, done⟩ := s
+  obtain ⟨hasCache, state, locked, tracker, calling, status, tRef, pRef, specT, userT, specP, userP, lT, lP, hsS, hsE, hT, hP, raw, ts, shares, filled, held, done, bfresh⟩ := s
   rcases pRef with _ | _ | _ <;> cases state <;>
     simp_all [afterLoad, finish, uApplyPatch, setPskToUConn, finalCheck, okR, failR, R.andThen, uAssert, finishedOk, pskSynced, sameObjs, St.pObj]
 
